@@ -27,6 +27,7 @@ LISTS = {
     'offset_obs': [['C4', 'B3'], ['B:B', 'C3'], ['3:3', 'B1:B4']],
     'beyond_obs': [['A4', 'A:A'], ['A:A', 'A4'], ['D1', '1:1', 'B1'], ['E:E', 'E2'], ['E1', 'C1']],
     'onecell_obs': [['A:A', 'A1'], ['B1', 'A:A'], ['1:1', 'C1']],
+    'beyond2_obs': [['T!A4', 'T!A:A'], ['T!A:A', 'T!A4'], ['T!C1', 'T!1:1', 'B1']],
     'cse_opq': [['D2', 'B1'], ['B1:B3', 'D3'], ['D1:D3', 'B2']],
     'table_opq': [['B3', 'C2'], ['A2:B4', 'B2'], ['B4', 'B2', 'B3']],
     'refval_opq': [['A1', 'B2'], ['C1', 'D1'], ['A1:D1', 'B2'], ['D1', 'A1:B2']],
@@ -161,6 +162,7 @@ def run(tier, seed):
         jobs.append(('offset_obs', [2], ['B3'], 'NoData', seed, 120))
         jobs.append(('beyond_obs', [2], [], 'NoData', seed, 60))
         jobs.append(('onecell_obs', [2], ['A1'], 'NoData', seed, 24))
+        jobs.append(('beyond2_obs', [2], [], 'NoData', seed, 60))
         jobs.append(('cse_obs', [2], ['A1'], 'Loaded', seed, 120))     # D63
         jobs.append(('cse_opq', [2], ['A1'], 'NoData', seed, 120))
         jobs.append(('table_opq', [5], ['A2'], 'NoData', seed, 120))
